@@ -300,7 +300,9 @@ const _: () = {
                         Handler::new(|_| Box::pin(async {
                             let mut res = crate::Response::OK();
                             {
-                                res.headers.set().ContentType(this.mime);
+                                res.headers.set()
+                                    .ContentType(this.mime)
+                                    .ContentLength(ohkami_lib::num::itoa(this.content.len()));
                                 res.content = Content::Payload({
                                     let content: &'static [u8] = &this.content;
                                     content.into()
